@@ -32,7 +32,7 @@ class JMHAdapter(GaugeAdapter):
     """
     # we need to capture both measurement iterations and warmup iterations
     re_result_line = re.compile(
-        r"^(Iteration|# Warmup Iteration)\s+(\d+):\s+(\d+(?:\.\d+)?)\s+(.+)")
+        r"^(Iteration|# Warmup Iteration)\s+(\d+):\s+(\d+(?:\.\d+)?)\s+([^\r]+)")
     re_bench = re.compile(r"^# Benchmark: (.+)")
     re_complete = re.compile("Run complete")
 
